@@ -145,6 +145,38 @@ theorem C22_flag (env : Env) (f : Field) (a : Argstr) (hb : f.isBool = true) (hp
   rw [hp]
   simp [hb]
 
+/-- the test that selects the flag branch, `tp is bool`, looks at the type with `| None` unwrapped … -/
+theorem C22_tp_unwrap (f : Field) : f.tpIsBool = f.isBool := tpIsBool_eq f
+
+/-- … so an OPTIONAL flag (`bool | None`) is a flag: False (and None, see `C22_omit_unset`) give nothing, True
+    gives exactly the argstr — although the declared type itself is not `bool` (`typeIsBool = false`: testing
+    `fld.type is bool` without the unwrapping would send it to `_format_arg` and print `-q True`). -/
+theorem C22_flag_optional (env : Env) (f : Field) (a : Argstr) (ho : f.optional = true) (hb : f.isBool = true)
+    (hp : a.raw.contains '{' = false) :
+    f.typeIsBool = false ∧ f.tpIsBool = true
+    ∧ fieldArgs env f a (.one (.bool false)) = .ok [] ∧ fieldArgs env f a (.one (.bool true)) = .ok [a.raw] := by
+  refine ⟨by simp [Field.typeIsBool, ho], by rw [tpIsBool_eq]; exact hb, ?_⟩
+  exact C22_flag env f a hb hp
+
+/-- the class form differs from the `inputs=[…]` form only by visiting the fields in name order -/
+theorem C22_classForm_sorted (F : FormatterFn) (xenv : Env) (cd : Str) (exe app : List Str)
+    (fxs : List FieldX) (vs : List ValueX) (hl : vs.length = fxs.length)
+    (h1 : (zipX fxs vs).filter (fun p => !p.1.x.out) ++ (zipX fxs vs).filter (fun p => p.1.x.out) = zipX fxs vs)
+    (h2 : ((zipX fxs vs).filter (fun p => !p.1.x.out)).Pairwise (fun p q => strLE p.1.base.name q.1.base.name = true))
+    (h3 : ((zipX fxs vs).filter (fun p => p.1.x.out)).Pairwise (fun p q => strLE p.1.base.name q.1.base.name = true)) :
+    runDefForm true F xenv cd exe fxs vs app = runDefForm false F xenv cd exe fxs vs app := by
+  have hz : ∀ (fs : List FieldX) (ws : List ValueX), ws.length = fs.length →
+      (zipX fs ws).map (·.1) = fs ∧ (zipX fs ws).map (·.2) = ws := by
+    intro fs
+    induction fs with
+    | nil => intro ws h; cases ws <;> simp_all [zipX]
+    | cons f fs ih =>
+      intro ws h
+      cases ws with
+      | nil => simp at h
+      | cons w ws => have := ih ws (by simpa using h); simp [zipX, this.1, this.2]
+  simp only [runDefForm, if_true, Bool.false_eq_true, if_false, classOrder_id _ h1 h2 h3, (hz fxs vs hl).1, (hz fxs vs hl).2]
+
 /-- `...`: the argstr is repeated for every element -/
 theorem C22_list_repeated (env : Env) (f : Field) (a : Argstr) (vs : List Scalar)
     (h : SafeField env f a (.many vs)) (hb : f.isBool = false) (hd : a.dots = true) :
@@ -249,8 +281,8 @@ theorem C22_lower_base (F : FormatterFn) (inputs : List (Str × ValueX)) (f : Fi
 /-! ### witnesses -/
 
 def mkPlain (raw : String) : Argstr := ⟨raw.toList, false, [.lit raw.toList]⟩
-def fldA : Field := ⟨"a".toList, false, false, some (mkPlain "-a"), none, [' ']⟩
-def fldB : Field := ⟨"b".toList, false, false, some (mkPlain "-b"), some 2, [' ']⟩
+def fldA : Field := ⟨"a".toList, false, false, some (mkPlain "-a"), none, [' '], false⟩
+def fldB : Field := ⟨"b".toList, false, false, some (mkPlain "-b"), some 2, [' '], false⟩
 def sv (s : String) : Value := .one (.str s.toList)
 
 /-- D26: `a` (no position) defined before `b` (position 2) is emitted before it; documented: after it. -/
@@ -263,7 +295,7 @@ theorem C22_witness_D26 :
     ∧ ¬ NoImplicitBelowExplicit (triples [fldA, fldB] [1, 2] [sv "A", sv "B"]) := by
   refine ⟨by decide, by decide, by decide, by decide⟩
 
-def fldN : Field := ⟨"n".toList, false, false, some (mkPlain "-n"), none, [' ']⟩
+def fldN : Field := ⟨"n".toList, false, false, some (mkPlain "-n"), none, [' '], false⟩
 /-- D41: the value 0 (here 0.0) under a plain argstr vanishes together with its flag -/
 theorem C22_witness_D41 :
     runDef ["exe".toList] [fldN] [.one (.float "0.0".toList true)] [] = .ok ["exe".toList]
@@ -277,7 +309,7 @@ theorem C22_witness_D41_int :
     ∧ Spec.commandArgs ["exe".toList] [fldN] [.one (.int 0)] [] = ["exe".toList, "-n".toList, "0".toList] := by
   refine ⟨by decide, by decide⟩
 
-def fldG : Field := ⟨"g".toList, false, false, some ⟨"-g...".toList, true, [.lit "-g".toList]⟩, none, [',']⟩
+def fldG : Field := ⟨"g".toList, false, false, some ⟨"-g...".toList, true, [.lit "-g".toList]⟩, none, [','], false⟩
 /-- D42: `...` with separator ",": the separator is glued to the elements -/
 theorem C22_witness_D42 :
     runDef ["exe".toList] [fldG] [.many [.str "a".toList, .str "b".toList]] []
@@ -285,6 +317,22 @@ theorem C22_witness_D42 :
     ∧ Spec.commandArgs ["exe".toList] [fldG] [.many [.str "a".toList, .str "b".toList]] []
       = ["exe".toList, "-g".toList, "a".toList, "-g".toList, "b".toList] := by
   refine ⟨by decide, by decide⟩
+
+def fxZ : FieldX := ⟨⟨"zz".toList, false, false, some (mkPlain "-z"), none, [' '], false⟩, {}⟩
+def fxA : FieldX := ⟨⟨"aa".toList, false, false, some (mkPlain "-a"), none, [' '], false⟩, {}⟩
+/-- D45: written as a class, `zz` before `aa`, the fields are visited in name order and `aa` comes first -/
+theorem C22_witness_D45 :
+    runDefForm true (fun _ _ => []) (fun _ => none) [] ["exe".toList] [fxZ, fxA] [.v (sv "Z"), .v (sv "A")] []
+      = .ok (["exe", "-a", "A", "-z", "Z"].map String.toList)
+    ∧ runDefForm false (fun _ _ => []) (fun _ => none) [] ["exe".toList] [fxZ, fxA] [.v (sv "Z"), .v (sv "A")] []
+      = .ok (["exe", "-z", "Z", "-a", "A"].map String.toList) := by
+  refine ⟨by decide, by decide⟩
+
+def fldQ : Field := { name := "q".toList, isBool := true, isMulti := false, argstr := some (mkPlain "-q"), position := none, sep := [' '], optional := true }
+/-- an optional flag set to True prints its flag, not `-q True` -/
+example : runDef ["tool".toList] [fldQ] [.one (.bool true)] [] = .ok ["tool".toList, "-q".toList] := by decide
+example : runDef ["tool".toList] [fldQ] [.one (.bool false)] [] = .ok ["tool".toList]
+    ∧ runDef ["tool".toList] [fldQ] [.unset] [] = .ok ["tool".toList] := by refine ⟨by decide, by decide⟩
 
 /-- hence the full statement fails (by the D26 witness, which satisfies all its hypotheses) -/
 theorem C22_witness_not_full : ¬ C22_full_statement := by
@@ -307,9 +355,9 @@ theorem C22_witness_not_full : ¬ C22_full_statement := by
 
 /-! ### non-vacuity: a definition with explicit, implicit and negative positions that meets every hypothesis -/
 
-def fldC : Field := ⟨"c".toList, false, false, some ⟨"--c={c}".toList, false, [.lit "--c=".toList, .ref "c".toList]⟩, some (-1), [' ']⟩
-def fldL : Field := ⟨"l".toList, false, false, some ⟨"-l...".toList, true, [.lit "-l".toList]⟩, none, [' ']⟩
-def fldP : Field := ⟨"p".toList, false, false, some (mkPlain "-p"), some 1, [' ']⟩
+def fldC : Field := ⟨"c".toList, false, false, some ⟨"--c={c}".toList, false, [.lit "--c=".toList, .ref "c".toList]⟩, some (-1), [' '], false⟩
+def fldL : Field := ⟨"l".toList, false, false, some ⟨"-l...".toList, true, [.lit "-l".toList]⟩, none, [' '], false⟩
+def fldP : Field := ⟨"p".toList, false, false, some (mkPlain "-p"), some 1, [' '], false⟩
 
 example : definePositions ([fldP, fldL, fldC].map (·.position)) = .ok [1, 2, -1] := by decide
 example : NoImplicitBelowExplicit (triples [fldP, fldL, fldC] [1, 2, -1]
@@ -350,10 +398,10 @@ example : TextOK "--c={c} -x".toList := by decide
 
 /-- the extended model on a definition with a formatter (uninterpreted: here a concrete one), a File-union
     bool, a readonly aggregate and an outarg whose template refers to an input -/
-def fxS : FieldX := ⟨⟨"s".toList, false, false, none, none, [' ']⟩, { formatter := some ["field".toList, "s".toList] }⟩
-def fxU : FieldX := ⟨⟨"u".toList, false, false, some (mkPlain "-u"), none, [' ']⟩, { fileUnion := true }⟩
-def fxR : FieldX := ⟨⟨"r".toList, false, false, some ⟨"--r={s}".toList, false, [.lit "--r=".toList, .ref "s".toList]⟩, some (-1), [' ']⟩, { readonly := true }⟩
-def fxO : FieldX := ⟨⟨"o".toList, false, false, some (mkPlain "-o"), none, [' ']⟩, { fileUnion := true, template := some ⟨"{s}_out.txt".toList, true⟩ }⟩
+def fxS : FieldX := ⟨⟨"s".toList, false, false, none, none, [' '], false⟩, { formatter := some ["field".toList, "s".toList] }⟩
+def fxU : FieldX := ⟨⟨"u".toList, false, false, some (mkPlain "-u"), none, [' '], false⟩, { fileUnion := true }⟩
+def fxR : FieldX := ⟨⟨"r".toList, false, false, some ⟨"--r={s}".toList, false, [.lit "--r=".toList, .ref "s".toList]⟩, some (-1), [' '], false⟩, { readonly := true }⟩
+def fxO : FieldX := ⟨⟨"o".toList, false, false, some (mkPlain "-o"), none, [' '], false⟩, { fileUnion := true, template := some ⟨"{s}_out.txt".toList, true⟩ }⟩
 def demoF : FormatterFn := fun name args =>
   "  --F ".toList ++ name ++ "  ".toList ++ (match args[1]? with | some (FArg.val v) => renderX v | _ => [])
 example : runDefX demoF (fun _ => none) "/job".toList ["exe".toList] [fxS, fxU, fxR, fxO]
